@@ -161,9 +161,12 @@ class ProcReactor(object):
         if delay < 0:
             raise HarnessError("negative delay %r" % (delay,))
         dc = DelayedCall(self.sim.now + delay, f, args, kw, self._cancelled, self._reset, seconds=self.seconds)
-        creator = _creator_file()
-        if not creator.endswith(".py") or creator in ("task.py", "defer.py", "core.py", "base.py"):
-            creator = _owner_of(f) or creator
+        if isinstance(f, LoopingCall):
+            creator = (_owner_of(f) or "task.py") + ":loop"
+        else:
+            creator = _creator_file()
+            if not creator.endswith(".py") or creator in ("task.py", "defer.py", "core.py", "base.py"):
+                creator = _owner_of(f) or creator
         dc.sim_creator = creator
         dc.sim_delay = delay
         self.calls.append(dc)
@@ -192,6 +195,8 @@ class ProcReactor(object):
         self.calls.remove(dc)
         dc.called = 1
         self.sim.mark("timer", "%s/%s" % (self.pid, dc.sim_creator))
+        if dc.sim_creator.endswith(":loop"):
+            self.sim.record("tick", self.pid, dc.sim_creator)
         try:
             dc.func(*dc.args, **dc.kw)
         except HarnessError:
